@@ -38,6 +38,34 @@ MUTANTS = [
     M("c02-paired-minus", "C02", (PR, "temp = temp1 + (sign * temp2)", "temp = temp1 - (sign * temp2)")),
     M("c02-scalar-branch-drop-sign", "C02", (PR, "temp = torch.dot(v + sign * vp, self.visible_bias)",
                                              "temp = torch.dot(v + vp, self.visible_bias)")),
+    # ---- C15
+    M("c15-matmul-imag-sign", "C15", (CX, "im = torch.matmul(real(x), imag(y)).add_(torch.matmul(imag(x), real(y)))",
+                                      "im = torch.matmul(real(x), imag(y)).sub_(torch.matmul(imag(x), real(y)))")),
+    M("c15-einsum-real-sign", "C15", (CX, "r = torch.einsum(equation, real(a), real(b)).sub_(", "r = torch.einsum(equation, real(a), real(b)).add_(")),
+    M("c15-inner-conj-right", "C15", (CX, "torch.dot(real(x), imag(y)) - torch.dot(imag(x), real(y)),",
+                                      "torch.dot(imag(x), real(y)) - torch.dot(real(x), imag(y)),")),
+    M("c15-kron-reshape-order", "C15", (CX, 'return einsum("ab,cd->acbd", x, y).reshape(', 'return einsum("ab,cd->abcd", x, y).reshape(')),
+    M("c15-conjugate-axes", "C15", (CX, "torch.transpose(real(x), 0, 1), -torch.transpose(imag(x), 0, 1)",
+                                    "torch.transpose(real(x), -2, -1), -torch.transpose(imag(x), -2, -1)")),
+    M("c15-inverse-no-conj", "C15", (CX, "    return z_star / denominator", "    return z / denominator")),
+    M("c15-alias-guard-removed", "C15", (CX, "        if out is x or out is y:", "        if False:")),
+    M("c15-outer-no-conj", "C15", (CX, "z[1] = torch.ger(real(x), -imag(y)) + torch.ger(imag(x), real(y))",
+                                   "z[1] = torch.ger(real(x), imag(y)) + torch.ger(imag(x), real(y))")),
+    M("c15-sigmoid-real-only", "C15", (CX, "out = np.exp(z) / (1 + np.exp(z))", "out = np.exp(z) / (1 + np.exp(z.real))")),
+    M("c15-absval-no-sqrt-small", "C15", (CX, "return real(elementwise_mult(x, x_star)).sqrt_()",
+                                          "return real(elementwise_mult(x, x_star)).sqrt_().clamp_(min=1e-30)")),
+    # ---- C04
+    M("c04-kron-site-order", "C04", (UN, "    for s in reversed(range(len(n))):\n        l //= n[s]  # noqa: E741\n        m = matrices[s]",
+                                     "    for s in reversed(range(len(n))):\n        l //= n[s]  # noqa: E741\n        m = matrices[len(n) - 1 - s]")),
+    M("c04-Y-rows-swapped", "C04", (UN, "[[[1.0, 0.0], [1.0, 0.0]], [[0.0, -1.0], [0.0, 1.0]]]", "[[[1.0, 0.0], [1.0, 0.0]], [[0.0, 1.0], [0.0, -1.0]]]")),
+    M("c04-rotate-rho-no-conj", "C04", (UN, "rho_r = _kron_mult(us, cplx.conjugate(rho_r))", "rho_r = _kron_mult(us, torch.transpose(rho_r, 1, 2))")),
+    M("c04-little-endian-index", "C04", (UN, "powers = (2 ** (torch.arange(states.shape[-1], 0, -1) - 1)).to(states)",
+                                         "powers = (2 ** torch.arange(states.shape[-1])).to(states)")),
+    M("c04-f1-transpose-regression", "C04", (UN, "rho = rho[:, idx.unsqueeze(1), idx.unsqueeze(0)]", "rho = rho[:, idx.unsqueeze(0), idx.unsqueeze(1)]")),
+    M("c04-Ut-no-conj", "C04", (UN, 'Ut = np.einsum("ib,jb->ijb", Ut, np.conj(Ut))', 'Ut = np.einsum("ib,jb->ijb", Ut, Ut)')),
+    M("c04-rotate-basis-transposed-U", "C04", (UN, "all_Us = Us[ints_size, :, int_sample, int_vp]", "all_Us = Us[ints_size, :, int_vp, int_sample]")),
+    M("c04-X-not-normalised", "C04", (UN, "[[[1.0, 1.0], [1.0, -1.0]], [[0.0, 0.0], [0.0, 0.0]]], dtype=torch.double\n        )\n        / np.sqrt(2)",
+                                      "[[[1.0, 1.0], [1.0, -1.0]], [[0.0, 0.0], [0.0, 0.0]]], dtype=torch.double\n        )\n        / 1.4142")),
 ]
 
 BENIGN = []
